@@ -61,7 +61,7 @@ Inductive cap := CapTI | CapRev | CapOther.
 Inductive meta :=
 | MetaErr
 | MetaNil                                   (* (nil, nil): breaks the plugin.Plugin contract *)
-| Meta (ver_valid ver_ge : bool) (caps : list cap).
+| Meta (ver_valid : bool) (caps : list cap).
 
 (* verifier.pluginManager *)
 Inductive pmgr := PMNil | PMGetErr | PMPlugin (m : meta).
@@ -86,6 +86,7 @@ Record scenario := mk_sc {
   s_sig : sigc;
   s_pattr : pattr;
   s_minver_bad : bool;      (* getVerificationPluginMinVersion fails (other than "absent") *)
+  s_minver_high : bool;     (* the demanded minimum version is above the installed plugin's *)
   s_nonstr_crit : bool;     (* a critical extended attribute with a non-string key *)
   s_crit : bool;            (* some critical extended attribute exists *)
   s_auth_fail : bool;       (* trust store load error or chain not trusted *)
@@ -166,9 +167,9 @@ Definition discover (pm : pmgr) (sc : scenario) : disc :=
           | PMGetErr => DErr XInconclusive
           | PMPlugin MetaErr => DErr XOther
           | PMPlugin MetaNil => DPanic              (* metadata.Version on a nil GetMetadataResponse pointer *)
-          | PMPlugin (Meta vv vg caps) =>
+          | PMPlugin (Meta vv caps) =>
               if negb vv then DErr XInconclusive
-              else if negb vg then DErr XInconclusive
+              else if s_minver_high sc then DErr XInconclusive
               else match vcaps caps with
                    | [] => DErr XInconclusive
                    | vc => DPlugin vc
